@@ -69,11 +69,15 @@ func (s Set) GetAttr(key uint8) (value string, ok bool) {
 func (s Set) Clone() Set {
 	c := Set{
 		Mask:     s.Mask,
-		attrs:    make(map[uint8]string, len(s.attrs)),
 		attrBits: s.attrBits,
 	}
-	for k, v := range s.attrs {
-		c.attrs[k] = v
+	// The map is left nil when there is nothing to copy (SetAttr allocates
+	// on demand), so that the clone of the zero Set is the zero Set.
+	if len(s.attrs) > 0 {
+		c.attrs = make(map[uint8]string, len(s.attrs))
+		for k, v := range s.attrs {
+			c.attrs[k] = v
+		}
 	}
 	return c
 }
